@@ -12,6 +12,8 @@ ID = "C16"
 ASSUMPTIONS = [
     "structure mode: node lists and exact edge sets/types of the four builders for every instance structure in the bound (flexible, "
     "irregular, recirculation included); no symbolic values are involved, the structures are enumerated exhaustively",
+    "blocks mode: the complete agent-task graph assembled by hand from the public building blocks (JobShopGraph.add_node with machine/job "
+    "nodes in every order, either group first, edge blocks in two orders); edges judged by the entities they connect",
     "where a conjunctive (job-chain) and a disjunctive edge are prescribed for the same ordered pair (consecutive operations of one job "
     "sharing a machine) the edge must be typed CONJUNCTIVE: the precedence must stay recognisable; the reverse edge is DISJUNCTIVE",
     "solved mode: durations arbitrary integers >= 1; (a) every dispatcher-built complete schedule, (b) arbitrary complete schedules built "
@@ -27,6 +29,7 @@ KINDS = ["disj", "at", "atj", "cat"]
 def bounds(tier):
     if tier == "quick":
         return ("structure: ordered shapes <=3 jobs <=4 ops, every non-flexible assignment M<=3 and every flexible structure M<=2 (<=3 ops: M<=3); "
+                "blocks: complete agent-task graph assembled by hand on shapes <=3 ops and (2,2) M<=3 (flexible: <=2 ops M<=2), all node orders; "
                 "solved (a): shapes <=4 ops M<=2 + flexible <=3 ops + 5 ops M<=3 up to renaming, all histories; solved (b): shapes <=4 ops M<=2 "
                 "(flexible <=3 ops), all machine assignments and per-machine orders")
     return "quick + structure on 5 ops M<=3; solved (a) on (2,2,2),(3,3),(3,2,1),(4,2) M<=3 up to renaming; solved (b) on 5 ops and flexible 4 ops"
@@ -38,6 +41,8 @@ def subspaces(tier):
     out += C.structure_subspaces(s4, 3, False, mode="structure")
     out += C.structure_subspaces(s4, 2, True, only_flexible=True, mode="structure")
     out += C.structure_subspaces(D.shapes(3, 2), 3, True, only_flexible=True, mode="structure")
+    out += C.structure_subspaces(s3 + [(2, 2)], 3, False, mode="blocks")
+    out += C.structure_subspaces(D.shapes(3, 2), 2, True, only_flexible=True, mode="blocks")
     out += C.structure_subspaces(s4, 2, False, mode="solved-a")
     out += C.structure_subspaces(s3, 2, True, only_flexible=True, mode="solved-a")
     out += C.structure_subspaces(s3 + [(2, 2)], 2, False, mode="solved-b")
@@ -56,6 +61,8 @@ def subspaces(tier):
 
 
 def cost(sp):
+    if sp["mode"] == "blocks":
+        return 12
     return 1 if sp["mode"] == "structure" else C.cost(dict(sp, filter="none")) * (4 if sp["mode"] == "solved-b" else 1)
 
 
@@ -181,6 +188,71 @@ def structure_harness(eng, sp, inst, desc):
     eng.observe("n", desc.n_ops)
 
 
+def blocks_harness(eng, sp, inst, desc):
+    """The same edge definitions, for a graph assembled by hand from the public building blocks: entity nodes are added
+    through JobShopGraph.add_node in a chosen order (any permutation of the machine nodes, of the job nodes, either group
+    first), then the edge blocks are called in a chosen order.  Edges are judged by the ENTITIES they connect."""
+    import job_shop_lib.graphs as G
+    from job_shop_lib.graphs import JobShopGraph, Node, NodeType
+
+    n, M, J = desc.n_ops, desc.n_machines, desc.n_jobs
+
+    def perm(k, what):
+        rest, out = list(range(k)), []
+        while len(rest) > 1:
+            out.append(rest.pop(eng.choice(len(rest), what)))
+        return out + rest
+
+    g = JobShopGraph(inst)
+    groups = [[("m", m) for m in perm(M, "machine-node-order")], [("j", j) for j in perm(J, "job-node-order")]]
+    if eng.choice(2, "jobs-first"):
+        groups.reverse()
+    for kind_, i in groups[0] + groups[1]:
+        g.add_node(Node(NodeType.MACHINE, machine_id=i) if kind_ == "m" else Node(NodeType.JOB, job_id=i))
+    G.add_global_node(g)
+    blocks = [G.add_operation_machine_edges, G.add_operation_job_edges, G.add_machine_global_edges, G.add_job_global_edges]
+    if eng.choice(2, "edge-block-order"):
+        blocks.reverse()
+    eng.reachable("state")
+    eng.reachable("transition")
+    key = "C16/blocks"
+    try:
+        for b in blocks:
+            b(g)
+    except E.Unsupported:
+        raise
+    except Exception as ex:
+        eng.fail(key + f"/building-block-raises-{type(ex).__name__}", f"{ex}"[:200])
+        return
+    nn, Ed, _ = expected(desc, "cat")
+    if len(g.nodes) != nn or [x.node_id for x in g.nodes] != list(range(nn)):
+        eng.fail(key + "/node-list-differs-from-one-node-per-entity", f"{len(g.nodes)} nodes, expected {nn}")
+        return
+    # canonical id (as in expected()) of every actual node
+    canon = {}
+    for x in g.nodes:
+        if x.node_type == NodeType.OPERATION:
+            canon[x.node_id] = x.operation.operation_id
+        elif x.node_type == NodeType.MACHINE:
+            canon[x.node_id] = n + x.machine_id
+        elif x.node_type == NodeType.JOB:
+            canon[x.node_id] = n + M + x.job_id
+        else:
+            canon[x.node_id] = n + M + J
+    if sorted(canon.values()) != list(range(nn)):
+        eng.fail(key + "/node-list-differs-from-one-node-per-entity", f"{sorted(canon.values())}")
+        return
+    got = {(canon[u], canon[v]) for u, v in g.graph.edges()}
+    missing, extra = sorted(set(Ed) - got), sorted(got - set(Ed))
+    if missing:
+        eng.fail(key + "/prescribed-edge-missing", f"{missing[:6]} (canonical ids: ops, machines, jobs, global)")
+    if extra:
+        eng.fail(key + "/edge-not-prescribed-by-the-definition", f"{extra[:6]} (canonical ids: ops, machines, jobs, global)")
+    if not missing and not extra:
+        eng.prove(True, key)
+    eng.observe("n", desc.n_ops)
+
+
 def longest_path_term(g, desc):
     """Duration-weighted longest path over the real graph's edges (None if cyclic)."""
     import networkx as nx
@@ -222,6 +294,8 @@ def harness(eng, sp):
     inst, desc = D.build_instance(eng, sp["shape"], sp["machines"], dmin=1)
     if sp["mode"] == "structure":
         return structure_harness(eng, sp, inst, desc)
+    if sp["mode"] == "blocks":
+        return blocks_harness(eng, sp, inst, desc)
     from job_shop_lib import Schedule, ScheduledOperation
     from job_shop_lib.dispatching import Dispatcher
 
